@@ -116,7 +116,12 @@ pub enum UfOp {
    FindId(u8),
 }
 
-pub fn check_uf(ops: &[UfOp]) -> Result<bool, String> {
+pub fn check_uf(ops: &[UfOp]) -> Result<bool, String> { check_uf_mode(ops, true) }
+
+/// `eager`: compare the whole partition after every operation. That queries every item after every step, and every
+/// query compresses the path it walks, so deep trees never exist; with `eager` off the partition is compared only at the
+/// end of the history (the `find` operations of the history itself still act on the uncompressed structure).
+pub fn check_uf_mode(ops: &[UfOp], eager: bool) -> Result<bool, String> {
    let mut uf = UnionFind::<u8>::default();
    // naive partition: class label per item
    let mut label: std::collections::BTreeMap<u8, usize> = Default::default();
@@ -197,6 +202,9 @@ pub fn check_uf(ops: &[UfOp]) -> Result<bool, String> {
       if uf.len() != items.len() || uf.is_empty() != items.is_empty() {
          return Err(format!("len() = {}, is_empty() = {}, model has {} items (step {step} of {ops:?})", uf.len(), uf.is_empty(), items.len()));
       }
+      if !eager && step + 1 != ops.len() {
+         continue;
+      }
       for a in &items {
          for b in &items {
             let same = uf.find_item(a) == uf.find_item(b);
@@ -207,6 +215,40 @@ pub fn check_uf(ops: &[UfOp]) -> Result<bool, String> {
       }
    }
    Ok(merged_nontrivial)
+}
+
+/// Histories that build deep trees: classes of equal size are united through their first items (no lookups in
+/// between), then a few items are looked up, then the partition is compared.
+pub fn tournament_ops(raw: &[(u8, u8, u8)], n: usize) -> Vec<UfOp> {
+   let mut classes: Vec<Vec<u8>> = (0..n as u8).map(|i| vec![i]).collect();
+   let mut ops = vec![];
+   let mut it = raw.iter();
+   while classes.len() > 1 {
+      let Some(&(a, b, c)) = it.next() else { break };
+      let i = a as usize % classes.len();
+      // prefer a partner of the same size
+      let same: Vec<usize> = (0..classes.len()).filter(|&j| j != i && classes[j].len() == classes[i].len()).collect();
+      let j = if !same.is_empty() && c % 4 != 0 {
+         same[b as usize % same.len()]
+      } else {
+         let j = b as usize % (classes.len() - 1);
+         if j >= i { j + 1 } else { j }
+      };
+      // united through the first items (mostly), sometimes through arbitrary members
+      let (x, y) = if c % 8 == 7 {
+         (classes[i][c as usize % classes[i].len()], classes[j][a as usize % classes[j].len()])
+      } else {
+         (classes[i][0], classes[j][0])
+      };
+      ops.push(if c % 2 == 0 { UfOp::UnionAdd(x, y) } else { UfOp::UnionAdd(y, x) });
+      let moved = classes[j].clone();
+      classes[i].extend(moved);
+      classes.remove(j);
+   }
+   for &(a, _, c) in it.take(4) {
+      ops.push(if c % 2 == 0 { UfOp::FindItem(a % n as u8) } else { UfOp::FindId(a) });
+   }
+   ops
 }
 
 pub fn run(a: &Args, rep: &mut Report) {
@@ -316,13 +358,13 @@ pub fn run(a: &Args, rep: &mut Report) {
       3 => (any::<u8>(), any::<u8>()).prop_map(|(a, b)| UfOp::UnionIds(a, b)),
       2 => any::<u8>().prop_map(UfOp::FindId),
    ];
-   let strat = proptest::collection::vec(op, 1..50);
+   let strat = (proptest::collection::vec(op, 1..50), any::<bool>());
    let mut runner = TestRunner::new(Config { cases, failure_persistence: None, rng_seed: RngSeed::Fixed(a.seed ^ 0x5151), ..Config::default() });
    let ufn = std::cell::Cell::new(0u64);
    let ufi = std::cell::Cell::new(0u64);
-   let res = runner.run(&strat, |ops| {
+   let res = runner.run(&strat, |(ops, eager)| {
       ufn.set(ufn.get() + 1);
-      match check_uf(&ops) {
+      match check_uf_mode(&ops, eager) {
          Ok(i) => {
             if i {
                ufi.set(ufi.get() + 1);
@@ -338,6 +380,35 @@ pub fn run(a: &Args, rep: &mut Report) {
    if let Err(e) = res {
       rep.violation(serde_json::json!({"structure": "UnionFind", "failure": format!("{e}")}));
    }
+   // deep trees: tournaments over 8-24 items, partition compared at the end only
+   let strat = (proptest::collection::vec((any::<u8>(), any::<u8>(), any::<u8>()), 12..48), 8usize..=24);
+   let mut runner = TestRunner::new(Config { cases: cases * 2, failure_persistence: None, rng_seed: RngSeed::Fixed(a.seed ^ 0x7117), ..Config::default() });
+   let tn = std::cell::Cell::new(0u64);
+   let tdeep = std::cell::Cell::new(0u64);
+   let res_t = runner.run(&strat, |(raw, n)| {
+      tn.set(tn.get() + 1);
+      let ops = tournament_ops(&raw, n);
+      let unions = ops.iter().filter(|o| matches!(o, UfOp::UnionAdd(..))).count();
+      match check_uf_mode(&ops, false) {
+         Ok(_) => {
+            if unions >= 10 {
+               tdeep.set(tdeep.get() + 1);
+               if samples.borrow().len() < 5 {
+                  samples.borrow_mut().push(serde_json::json!({"structure": "UnionFind (tournament, partition compared at the end)", "ops": format!("{ops:?}")}));
+               }
+            }
+            Ok(())
+         },
+         Err(e) => Err(TestCaseError::fail(e)),
+      }
+   });
+   if let Err(e) = res_t {
+      rep.violation(serde_json::json!({"structure": "UnionFind (tournament history)", "failure": format!("{e}")}));
+   }
+   rep.evaluations += tn.get();
+   rep.nontrivial += tdeep.get();
+   rep.count("unionfind_tournament_histories", tn.get());
+   rep.count("unionfind_tournaments_with_10+_unions", tdeep.get());
    rep.evaluations += ufn.get();
    rep.nontrivial += ufi.get();
    rep.count("random_unionfind_histories", ufn.get());
